@@ -198,6 +198,14 @@ static void ghost_obs(int point, const void* a, const void* b, int me) {
     }
     case FV_SCHEDULE: {
       vp_gfiber_t* g = gfind(b, 1);
+      {
+        // run queues are single-owner deques: only the kernel thread that owns a scheduler may push onto it
+        fiber_manager_t* const mgr = fiber_manager_get();
+        if (mgr && (const void*)mgr->scheduler != a)
+          gviol(g_queue_prop, "ghost:push-by-non-owner",
+                "thread %d (scheduler %p) makes fiber %p runnable on scheduler %p, a run queue owned by another kernel thread (stale manager after migration?)",
+                me, (void*)mgr->scheduler, b, a);
+      }
       if (atomic_load(&g->destroyed)) {
         gviol(g_exec_prop, "ghost:schedule-destroyed", "thread %d schedules destroyed fiber %p", me, b);
       }
